@@ -26,13 +26,16 @@ C10Labels(c) ==
   \cup (IF \E i \in DOMAIN c.polluters : c.polluters[i].err = "panic" THEN {"crash"} ELSE {})
 
 \* ---- C11
-Slack(c) == IF c.par <= 4 THEN 500 ELSE 2500
+\* the tolerance grows with the scheduling jitter the driver measured while the case ran (how late a goroutine
+\* sleeping 1 ms woke up): an overloaded machine is not a late interrupt
+Slack(c) == (IF c.par <= 4 THEN 500 ELSE 2500) + 10 * c.jitter
 Max(a, b) == IF a > b THEN a ELSE b
 \* an execution whose context ended stops promptly; a script that does not end by itself reports a timeout
 ExecLabels(c, e) ==
   (IF e.hung THEN {"never-returned"} ELSE {})
   \cup (IF ~e.hung /\ ~e.terminates /\ e.err # "timeout" THEN {"no-timeout-error"} ELSE {})
-  \cup (IF ~e.hung /\ e.terminates /\ e.err \notin {"", "timeout"} THEN {"wrong-error"} ELSE {})
+  \cup (IF ~e.hung /\ e.terminates /\ ~e.fails /\ e.err \notin {"", "timeout"} THEN {"wrong-error"} ELSE {})
+  \cup (IF ~e.hung /\ e.terminates /\ e.fails /\ e.err = "" THEN {"failure-not-reported"} ELSE {})
   \cup (IF ~e.hung /\ e.err = "timeout" /\ e.ret > Max(e.start, e.ctxDone) + Slack(c) THEN {"stopped-too-late"} ELSE {})
   \cup (IF ~e.hung /\ e.viaWalk /\ e.err = "timeout" /\ ~(e.walkNode = "error" /\ e.walkErrText) THEN {"timeout-not-routed-as-action-error"} ELSE {})
 C11Labels(c) ==
